@@ -9,6 +9,7 @@ import (
 	"unicode/utf8"
 
 	"github.com/rulego/streamsql/functions"
+	"github.com/rulego/streamsql/utils/cast"
 	"github.com/rulego/streamsql/utils/fieldpath"
 )
 
@@ -362,6 +363,16 @@ func evaluateOperatorValue(node *ExprNode, data map[string]any) (any, error) {
 	// Try to convert operands to numbers
 	leftFloat, leftOk := convertToFloatSafe(left)
 	rightFloat, rightOk := convertToFloatSafe(right)
+
+	// "+" on a text operand that is not a number concatenates, as the expr-lang
+	// bridge does for the same expression ('ab' + 1 is 'ab1')
+	if node.Value == "+" && (!leftOk || !rightOk) {
+		_, leftIsString := left.(string)
+		_, rightIsString := right.(string)
+		if leftIsString || rightIsString {
+			return cast.ToString(left) + cast.ToString(right), nil
+		}
+	}
 
 	if !leftOk {
 		return nil, fmt.Errorf("left operand cannot be converted to number: %v", left)
